@@ -803,3 +803,4 @@ EXPLANATION += (' Location-independent additions: DRUM/keep-condition and DRUM/t
 EXPLANATION += (' Round 6: ' + 'SPELL/alteration-magnitude (the alteration is not only compared in _pitch_class_to_string); SEQ/leadsheet-every-exit (must-pass-through over the normal exits of LeadSheet.transpose; a skipped delegate is located when its guard is taken for an amount of 12).')
 EXPLANATION += (' Round 7: ' + 'SEQ/squash-every-exit (must-pass-through); PITFALL/falsy-zero over chord_symbols_lib.')
 EXPLANATION += (' Rounds 9-10: ' + 'SEQ/leadsheet-defaults (sibling agreement with Melody); RANGE/filter-whatever-the-amount; SEQ/squash-every-exit answers cannot-classify for an exit under a further unclassified condition.')
+EXPLANATION += (' Round 11: ' + 'KEY/scenarios (key-signature loop body on 3 keys x 8 amounts).')
